@@ -34,7 +34,7 @@ package casket
 
 //@ unit lifecycle frames=on props=C16,C08 filter=`casket\.startWithListenerFds$|casket\.startWithListenerFds\$1$|Instance\)\.ShutdownCallbacks$`
 //@ // representation invariant of the instance list: every entry is a live *Instance (assumed at entry, re-established at every exit that changed state)
-//@ invariant forall(k, 0, len(instances), instances[k] != nil)
+//@ invariant forall(k, 0, len(instances), instances[k] != nil && instances[k].wg != nil)
 //@ func checkFdlimit
 //@ func IsLoopback
 //@   pure
@@ -59,9 +59,11 @@ package casket
 //@ func IsUpgrade
 //@   pure
 //@ func startServers
-//@   modifies ghost:serversStarted
+//@   requires inst != nil
+//@   modifies ghost:serversStarted, Instance.servers
 //@   ensures serversStarted == old(serversStarted) + 1
 //@ func ValidateAndExecuteDirectives
+//@   modifies Instance.casketfileInput, Instance.context, Instance.OnFirstStartup, Instance.OnStartup, Instance.OnRestart, Instance.OnRestartFailed, Instance.OnShutdown, Instance.OnFinalShutdown, Instance.Storage
 //@   requires inst != nil
 
 //@ // the deferred clean-up: a failed start takes the instance out of the process-wide list again (C08)
@@ -71,13 +73,13 @@ package casket
 //@   ensures [lock_balance] held(instancesMu) == old(held(instancesMu))
 //@   ensures [removes_one_on_failure] err != nil ==> len(instances) == old(len(instances)) - 1
 //@   ensures [keeps_on_success] err == nil ==> instances == old(instances)
-//@   requires forall(k, 0, len(instances), instances[k] != nil)
-//@   ensures [entries_stay_live] forall(k, 0, len(instances), instances[k] != nil)
-//@   loop 1 invariant forall(k, 0, len(instances), instances[k] != nil)
+//@   requires forall(k, 0, len(instances), instances[k] != nil && instances[k].wg != nil)
+//@   ensures [entries_stay_live] forall(k, 0, len(instances), instances[k] != nil && instances[k].wg != nil)
+//@   loop 1 invariant forall(k, 0, len(instances), instances[k] != nil && instances[k].wg != nil)
 //@   loop 1 invariant 0 <= #i && #i <= len(instances) && instances == old(instances) && forall(k, 0, #i, instances[k] != inst) && held(instancesMu) == old(held(instancesMu)) + 1
 //@ func startWithListenerFds
-//@   requires inst != nil && nFirst == 0 && nStartup == 0 && serversStarted == 0
-//@   modifies G:github.com/tmpim/casket.instances, E:*github.com/tmpim/casket.Instance, ghost:nFirst, ghost:nStartup, ghost:serversStarted, G:github.com/tmpim/casket.started
+//@   requires inst != nil && inst.wg != nil && nFirst == 0 && nStartup == 0 && serversStarted == 0
+//@   modifies G:github.com/tmpim/casket.instances, E:*github.com/tmpim/casket.Instance, ghost:nFirst, ghost:nStartup, ghost:serversStarted, G:github.com/tmpim/casket.started, Instance
 //@   ensures [failed_start_leaves_no_instance] result != nil ==> len(instances) == old(len(instances))
 //@   ensures [successful_start_registers_instance] result == nil ==> len(instances) == old(len(instances)) + 1
 //@   ensures [lock_balance] held(instancesMu) == old(held(instancesMu))
@@ -88,10 +90,10 @@ package casket
 //@   at call dynamic#2 do nStartup = nStartup + 1
 //@   at call startServers assert [all_startup_done] nStartup == len(inst.OnStartup)
 //@   ensures [success_means_started] result == nil ==> (serversStarted == 1 && nStartup == len(inst.OnStartup))
-//@   loop 1 invariant 0 <= #i && nFirst == #i && nStartup == 0 && serversStarted == 0 && forall(k, 0, len(instances), instances[k] != nil)
-//@   loop 2 invariant 0 <= #i && #i <= len(inst.OnStartup) && nStartup == #i && serversStarted == 0 && forall(k, 0, len(instances), instances[k] != nil)
-//@   loop 3 invariant forall(k, 0, len(instances), instances[k] != nil)
-//@   loop 4 invariant forall(k, 0, len(instances), instances[k] != nil)
+//@   loop 1 invariant 0 <= #i && nFirst == #i && nStartup == 0 && serversStarted == 0 && forall(k, 0, len(instances), instances[k] != nil && instances[k].wg != nil)
+//@   loop 2 invariant 0 <= #i && #i <= len(inst.OnStartup) && nStartup == #i && serversStarted == 0 && forall(k, 0, len(instances), instances[k] != nil && instances[k].wg != nil)
+//@   loop 3 invariant forall(k, 0, len(instances), instances[k] != nil && instances[k].wg != nil)
+//@   loop 4 invariant forall(k, 0, len(instances), instances[k] != nil && instances[k].wg != nil)
 
 //@ unit start_servers frames=on props=C08 filter=`casket\.startServers$|casket\.startServers\$1$`
 //@ ghost opened int
@@ -179,6 +181,7 @@ package casket
 //@ ghost nStart int
 //@ ghost nLive int
 //@ func startWithListenerFds
+//@   requires inst != nil && inst.wg != nil
 //@   may_panic
 //@   modifies ghost:nStart, ghost:nLive
 //@   ensures nStart == old(nStart) + 1
@@ -252,6 +255,8 @@ package casket
 //@ // SIGUSR1 reload: "a failed attempt leaves the registered event hooks as they were". hooksPurged is 1 from the moment
 //@ // the handler purges the hook registry until it either restores the saved copy or the restart succeeds (the new
 //@ // configuration has registered its own); the handler is back at the top of its signal loop only with hooksPurged == 0.
+//@ // the instance list holds live instances, each with its wait group (as Start makes them; kept by every unit that changes the list)
+//@ invariant forall(k, 0, len(instances), instances[k] != nil && instances[k].wg != nil)
 //@ ghost hooksPurged int
 //@ ghost savedHooks int
 //@ func cloneEventHooks
@@ -266,13 +271,17 @@ package casket
 //@   modifies ghost:hooksPurged
 //@   ensures hooksPurged == 0
 //@ func (*Instance).Restart
-//@   modifies ghost:hooksPurged
+//@   requires i != nil && i.wg != nil
+//@   modifies ghost:hooksPurged, ptr:error, ptr:*github.com/tmpim/casket.Instance
 //@   ensures (result1 == nil ==> hooksPurged == 0) && (result1 != nil ==> hooksPurged == old(hooksPurged))
 //@ func getCurrentCasketfile
-//@   ensures result2 == nil ==> result1 != nil
+//@   ensures result2 == nil ==> (result1 != nil && result1.wg != nil)
 //@ // other branches of the signal loop (frame-empty, explicit assumptions; their own guarantees are in other units)
 //@ func EmitEvent
 //@ func Stop
+//@   modifies G:github.com/tmpim/casket.instances, E:*github.com/tmpim/casket.Instance
+//@   requires forall(k, 0, len(instances), instances[k] != nil && instances[k].wg != nil)
+//@   ensures len(instances) == 0
 //@ func Upgrade
 //@ func executeShutdownCallbacks
 //@ // C16 reads the same unit: event hooks are how the `on` directive's lifecycle commands run, so hooks left behind by a
@@ -282,12 +291,12 @@ package casket
 //@ func trapSignalsPosix$1
 //@   requires hooksPurged == 0
 //@   at call (*Instance).Restart cover [reload_runs_in_the_signal_loop_itself_one_at_a_time] hooksPurged == 1
-//@   modifies ghost:hooksPurged, ghost:savedHooks
+//@   modifies ghost:hooksPurged, ghost:savedHooks, ptr:error, ptr:*github.com/tmpim/casket.Instance, G:github.com/tmpim/casket.instances, E:*github.com/tmpim/casket.Instance
 //@   loop 1 invariant [hooks_intact_between_signals] hooksPurged == 0
 
 //@ unit instance_stop frames=on props=C16,C08 filter=`casket\.Instance\)\.Stop$`
 //@ // representation invariant of the instance list: every entry is a live *Instance (assumed at entry, re-established at every exit that changed state)
-//@ invariant forall(k, 0, len(instances), instances[k] != nil)
+//@ invariant forall(k, 0, len(instances), instances[k] != nil && instances[k].wg != nil)
 //@ // Stop stops every server, takes the instance off the list under the lock, and reports no error (a server that fails
 //@ // to stop is logged): Restart treats an error from it as a failed reload although the successor is already live.
 //@ define listed() bool = exists(k, 0, len(instances), instances[k] == i)
@@ -299,7 +308,7 @@ package casket
 //@   ensures [a_listed_instance_is_taken_off_the_list] old(listed()) ==> len(instances) == old(len(instances)) - 1
 //@   ensures [list_never_grows] len(instances) <= old(len(instances))
 //@   ensures [remaining_entries_were_listed_before] forall(k, 0, len(instances), exists(j, 0, old(len(instances)), instances[k] == old(instances[j])))
-//@   loop 2 invariant forall(k, 0, len(instances), instances[k] != nil)
+//@   loop 2 invariant forall(k, 0, len(instances), instances[k] != nil && instances[k].wg != nil)
 //@   loop 2 invariant 0 <= #i && #i <= len(instances) && instances == old(instances) && forall(k, 0, #i, instances[k] != i)
 
 //@ unit internal_hosts frames=on props=C15 filter=`casket\.IsInternal$`
@@ -337,6 +346,7 @@ package casket
 //@ ghostfn ran
 //@ func (*Instance).ShutdownCallbacks
 //@   requires i != nil
+//@   requires i != nil
 //@   modifies ghost:ran
 //@   ensures ran(i) == old(ran(i)) + 1 && forallT(o, *Instance, o != i ==> ran(o) == old(ran(o)))
 //@ func allShutdownCallbacks
@@ -357,6 +367,7 @@ package casket
 //@   modifies ghost:onceCalls
 //@   ensures onceCalls == old(onceCalls) + 1
 //@ func allShutdownCallbacks
+//@   requires forall(k, 0, len(instances), instances[k] != nil && forall(j, 0, k, instances[j] != instances[k]))
 //@   watch
 //@   modifies ghost:directRuns
 //@   ensures directRuns == old(directRuns) + 1
@@ -377,7 +388,7 @@ package casket
 
 //@ unit lifecycle_helpers frames=on props=C08,C16,C15 verify_pure=on nilchecks=on filter=`casket\.(IsLoopback|IsUpgrade|cloneEventHooks|getCurrentCasketfile)$`
 //@ // representation invariant of the instance list: every entry is a live *Instance (assumed at entry, re-established at every exit that changed state)
-//@ invariant forall(k, 0, len(instances), instances[k] != nil)
+//@ invariant forall(k, 0, len(instances), instances[k] != nil && instances[k].wg != nil)
 //@ // helpers that the lifecycle units assume through thin contracts: proved against exactly those contracts here
 //@ use @verif/specs/stdlib.spec:stdlib
 //@ extern net.SplitHostPort
@@ -391,7 +402,7 @@ package casket
 //@ func cloneEventHooks
 //@   ensures result != nil
 //@ func getCurrentCasketfile
-//@   ensures result2 == nil ==> result1 != nil
+//@   ensures result2 == nil ==> (result1 != nil && result1.wg != nil)
 
 //@ unit validate_only frames=on props=C08,C11 nilchecks=on filter=`casket\.ValidateAndExecuteDirectives$`
 //@ // C08 "a rejected configuration leaves nothing behind" / C11 "-validate and a real start agree": a validation-only call
@@ -410,11 +421,12 @@ package casket
 //@ // assumed: the directive setups act on the instance they are given, not on another one
 //@ func executeDirectives
 //@   requires inst != nil
-//@   modifies Instance
+//@   requires inst != nil
+//@   modifies Instance.casketfileInput, Instance.context, Instance.OnFirstStartup, Instance.OnStartup, Instance.OnRestart, Instance.OnRestartFailed, Instance.OnShutdown, Instance.OnFinalShutdown, Instance.Storage
 //@   ensures forallT(o, *Instance, o != inst ==> (o.casketfileInput == old(o.casketfileInput) && o.context == old(o.context)))
 //@ func ValidateAndExecuteDirectives
 //@   requires cdyfile != nil && (justValidate || inst != nil)
-//@   modifies Instance
+//@   modifies Instance.casketfileInput, Instance.context, Instance.OnFirstStartup, Instance.OnStartup, Instance.OnRestart, Instance.OnRestartFailed, Instance.OnShutdown, Instance.OnFinalShutdown, Instance.Storage
 //@   ensures [validation_leaves_the_callers_instance_alone] (justValidate && inst != nil) ==> (inst.casketfileInput == old(inst.casketfileInput) && inst.context == old(inst.context))
 //@   at call executeDirectives before [same_steps_in_both_modes_on_the_chosen_instance] arg0 != nil && arg4 == justValidate && (justValidate ==> arg0 != old(inst)) && (!justValidate ==> arg0 == old(inst))
 
@@ -475,7 +487,7 @@ package casket
 //@ // C16 "shutdown": the process-wide Stop stops the instances one by one until none is listed - every round stops the first
 //@ // listed instance, which takes it off the list (contract of Instance.Stop, unit instance_stop), so the loop ends after as
 //@ // many rounds as there were instances; the list lock is balanced.
-//@ invariant forall(k, 0, len(instances), instances[k] != nil)
+//@ invariant forall(k, 0, len(instances), instances[k] != nil && instances[k].wg != nil)
 //@ define listedI(x *Instance) bool = exists(k, 0, len(instances), instances[k] == x)
 //@ extern log.Printf
 //@ extern (*sync.WaitGroup).Add
